@@ -196,6 +196,8 @@ func runC16(p *eng.Prog, r *eng.Report, tier string) {
 		c.r.Check("C16.1", f, "hex digit ranges", "T: "+name+" covers 0-9, a-f and A-F", f.Pos(), okR, "ranges found: "+strings.Join(sortedKeys(ranges), " "))
 	}
 	c16RoomBeforeFixedCopy(c, "C16.12")
+	c16EscapeCopiesOnlyPlainRuns(c, "C16.13")
+	c16RestCopyChecksTheDestination(c, "C16.14")
 	ut := c.fn("C16.3", "jid", "unescapeMapping.Transform")
 	us := c.fn("C16.4", "jid", "unescapeMapping.Span")
 	es := c.fn("C16.4", "jid", "escapeMapping.Span")
@@ -883,4 +885,89 @@ func c16RoomBeforeFixedCopy(c *cx, id string) {
 		}
 	}
 	c.r.Floor(id, "copies of fixed sequences in the Transform functions", n, 1)
+}
+
+// c16EscapeCopiesOnlyPlainRuns (C16.13): escaping is lossless because every
+// escapable byte - the backslash included - is replaced by its sequence: what
+// escapeMapping.Transform copies from the source unchanged is the run in
+// front of the next escapable byte (src[nSrc:nSrc+idx]) or, when there is
+// none, the rest (src[nSrc:]). A copy of any other source range (a backslash
+// that "already starts a sequence", copied with its two hex digits) makes
+// "c:\20files" unescape to "c: files".
+func c16EscapeCopiesOnlyPlainRuns(c *cx, id string) {
+	f := c.fn(id, "jid", "escapeMapping.Transform")
+	if f == nil {
+		return
+	}
+	n := 0
+	for _, cl := range f.Calls("builtin.copy") {
+		sl, ok := ast.Unparen(cl.Args[1]).(*ast.SliceExpr)
+		if !ok {
+			continue
+		}
+		if v := rootLocal(f, sl.X); v == nil || v != f.Sig().Params().At(1) {
+			continue
+		}
+		n++
+		lo, hi := affine(f, sl.Low), affine(f, sl.High)
+		okr := lo == "+r1" && (hi == "" || (strings.Contains(hi, "+r1") && strings.Contains(hi, "bytes.IndexAny") || strings.Contains(hi, "def:bytes.IndexAny")))
+		c.r.Check(id, f, "source range copied unchanged", "E-aff: src[nSrc:] or src[nSrc:nSrc+idx], idx the result of the search for the next escapable byte", cl.Pos(), okr, "copies src["+lo+":"+hi+"]")
+	}
+	c.r.Floor(id, "verbatim copies in escapeMapping.Transform", n, 2)
+}
+
+// c16RestCopyChecksTheDestination (C16.14): copy() copies as much as fits. A
+// Transform that copies "the rest of the source" (src[nSrc:]) and then reports
+// success has made sure that the rest did fit: every success return reachable
+// from such a copy lies behind the edge nSrc >= len(src) (the other edge
+// answers ErrShortDst). Without it, Transform returns a nil error at the end of
+// the input with source left over: transform.Append and hand-written loops
+// truncate the output for almost every destination size.
+func c16RestCopyChecksTheDestination(c *cx, id string) {
+	n := 0
+	for _, name := range []string{"escapeMapping.Transform", "unescapeMapping.Transform"} {
+		f := c.fn(id, "jid", name)
+		if f == nil {
+			continue
+		}
+		g := f.Graph()
+		cut := eng.Cut{}
+		for _, ce := range g.CondEdges() {
+			for _, a := range ce.Atoms {
+				if eng.Glob("!lt(local:r1<int>,builtin.len(p1))", a.S) || eng.Glob("!lt(*r1*,builtin.len(*p1*))", a.S) {
+					cut[ce.E] = true
+				}
+			}
+		}
+		for _, cl := range f.Calls("builtin.copy") {
+			sl, ok := ast.Unparen(cl.Args[1]).(*ast.SliceExpr)
+			if !ok || sl.High != nil {
+				continue
+			}
+			if v := rootLocal(f, sl.X); v == nil || v != f.Sig().Params().At(1) {
+				continue
+			}
+			n++
+			cp, _ := g.Where(cl)
+			bad := ""
+			for _, rs := range g.Returns {
+				if g.RetKindOf(rs) == eng.RetError {
+					continue
+				}
+				rp, ok := g.Where(rs)
+				if !ok {
+					continue
+				}
+				// stop at the next copy: its own obligation
+				stop := func(q eng.Point, nd ast.Node) bool {
+					return nd != nil && f.ContainsCall(nd, "builtin.copy") != nil && !containsNode(nd, cl)
+				}
+				if g.Reachable(g.After(cp), rp, cut, stop) {
+					bad = f.Prog.Pos(rs.Pos())
+				}
+			}
+			c.r.Check(id, f, "success after a copy of the rest of the source", "G: a success return after copy(dst, src[nSrc:]) lies behind the test that all of the source was consumed", cl.Pos(), bad == "", "the return at "+bad+" reports success although the copy may have been cut short by the destination")
+		}
+	}
+	c.r.Floor(id, "copies of the rest of the source", n, 2)
 }
